@@ -3,7 +3,9 @@ package c14
 import (
 	"context"
 	"fmt"
+	"regexp"
 	"sort"
+	"strconv"
 	"strings"
 	"sync"
 	"sync/atomic"
@@ -319,16 +321,53 @@ func runVM(prog compiler.CompileOutput, src drive.Sources) (string, *drive.Log) 
 // Canonical dump of the compiler output
 // ---------------------------------------------------------------------------------------------
 
+var lambdaRe = regexp.MustCompile(`^@(.*)_\$lambda_([0-9]+)$`)
+var lambdaUseRe = regexp.MustCompile(`@[A-Za-z0-9_]+_\$lambda_[0-9]+`)
+
 // CanonCode renders a compile output: functions sorted by mangled name, one instruction per line,
 // then the mangle mappings, annotations and the source map, all in sorted order. `norm` replaces
 // the names of globals (which carry a counter shared by all modules: `@mod_name<cnt>`) by G<k> in
-// the order of first occurrence, so that a mere renumbering is not reported as a difference.
+// the order of first occurrence and renumbers function literals per module, so that a mere
+// renumbering is not reported as a difference; the calls of the module initialisers are listed
+// sorted (their order is the separate component init-order).
 func CanonCode(out compiler.CompileOutput) (raw, norm, initOrder string) {
 	names := make([]string, 0, len(out.Functions))
 	for n := range out.Functions {
 		names = append(names, n)
 	}
 	sort.Strings(names)
+	// function literals are named @<module>_$lambda_<n> with one counter shared by all modules:
+	// renumber them per module in the order of their counters
+	lam := map[string]string{}
+	perMod := map[string][]string{}
+	for _, n := range names {
+		if m := lambdaRe.FindStringSubmatch(n); m != nil {
+			perMod[m[1]] = append(perMod[m[1]], n)
+		}
+	}
+	for mod, ls := range perMod {
+		sort.Slice(ls, func(i, j int) bool {
+			a, _ := strconv.Atoi(lambdaRe.FindStringSubmatch(ls[i])[2])
+			b, _ := strconv.Atoi(lambdaRe.FindStringSubmatch(ls[j])[2])
+			return a < b
+		})
+		for i, n := range ls {
+			lam[n] = fmt.Sprintf("%s$lambda#%d", mod, i)
+		}
+	}
+	lamName := func(s string) string {
+		if len(lam) == 0 || !strings.Contains(s, "$lambda_") {
+			return s
+		}
+		return lambdaUseRe.ReplaceAllStringFunc(s, func(m string) string {
+			if r, ok := lam[m]; ok {
+				return r
+			}
+			return m
+		})
+	}
+	normNames := append([]string{}, names...)
+	sort.Slice(normNames, func(i, j int) bool { return lamName(normNames[i]) < lamName(normNames[j]) })
 	ren := map[string]string{}
 	rename := func(s string) string {
 		if r, ok := ren[s]; ok {
@@ -339,9 +378,27 @@ func CanonCode(out compiler.CompileOutput) (raw, norm, initOrder string) {
 		return r
 	}
 	var rb, nb strings.Builder
+	srcMap := func(n string) string {
+		sm, ok := out.SourceMap[n]
+		if !ok {
+			return "  SOURCEMAP missing\n"
+		}
+		var sb strings.Builder
+		for _, s := range sm {
+			sb.WriteString(spanStr(s))
+			sb.WriteByte(' ')
+		}
+		return fmt.Sprintf("  SOURCEMAP %s\n", sb.String())
+	}
 	for _, n := range names {
 		fmt.Fprintf(&rb, "FUNCTION %s\n", n)
-		fmt.Fprintf(&nb, "FUNCTION %s\n", n)
+		for idx, in := range out.Functions[n] {
+			fmt.Fprintf(&rb, "  %04d %s\n", idx, in.String())
+		}
+		rb.WriteString(srcMap(n))
+	}
+	for _, n := range normNames {
+		fmt.Fprintf(&nb, "FUNCTION %s\n", lamName(n))
 		var initRun []string // a run of consecutive calls of module initialisers
 		flush := func() {
 			if len(initRun) == 0 {
@@ -356,7 +413,6 @@ func CanonCode(out compiler.CompileOutput) (raw, norm, initOrder string) {
 			initRun = nil
 		}
 		for idx, in := range out.Functions[n] {
-			fmt.Fprintf(&rb, "  %04d %s\n", idx, in.String())
 			switch v := in.(type) {
 			case compiler.OneStringInstruction:
 				switch v.Opcode() {
@@ -372,21 +428,10 @@ func CanonCode(out compiler.CompileOutput) (raw, norm, initOrder string) {
 				}
 			}
 			flush()
-			fmt.Fprintf(&nb, "  %04d %s\n", idx, in.String())
+			fmt.Fprintf(&nb, "  %04d %s\n", idx, lamName(in.String()))
 		}
 		flush()
-		if sm, ok := out.SourceMap[n]; ok {
-			var sb strings.Builder
-			for _, s := range sm {
-				sb.WriteString(spanStr(s))
-				sb.WriteByte(' ')
-			}
-			fmt.Fprintf(&rb, "  SOURCEMAP %s\n", sb.String())
-			fmt.Fprintf(&nb, "  SOURCEMAP %s\n", sb.String())
-		} else {
-			rb.WriteString("  SOURCEMAP missing\n")
-			nb.WriteString("  SOURCEMAP missing\n")
-		}
+		nb.WriteString(srcMap(n))
 	}
 	for _, n := range drive.SortedKeys(out.SourceMap) {
 		if _, ok := out.Functions[n]; !ok {
@@ -408,7 +453,16 @@ func CanonCode(out compiler.CompileOutput) (raw, norm, initOrder string) {
 			fmt.Fprintf(&nb, "%s %s -> %s\n", title, k, v)
 		}
 	}
-	dumpMap("MAP-FN", out.Mappings.Functions, false)
+	lamMap := map[string]string{}
+	for k, v := range out.Mappings.Functions {
+		lamMap[lamName("@main_"+k)] = lamName(v)
+	}
+	for _, k := range drive.SortedKeys(out.Mappings.Functions) {
+		fmt.Fprintf(&rb, "MAP-FN %s -> %s\n", k, out.Mappings.Functions[k])
+	}
+	for _, k := range drive.SortedKeys(lamMap) {
+		fmt.Fprintf(&nb, "MAP-FN %s -> %s\n", k, lamMap[k])
+	}
 	dumpMap("MAP-GLOB", out.Mappings.Globals, true)
 	dumpMap("MAP-SINGLETON", out.Mappings.Singletons, true)
 	var anns []string
